@@ -21,4 +21,11 @@ VARIANTS = [
     V("N-if-positive-form", O, "        if not comparison_fn(se1, se2):\n            continue\n\n        col.extend([index1, index2])\n        row.extend([index2, index1])\n        values.extend([1, 1])",
       "        if comparison_fn(se1, se2):\n            col.extend([index1, index2])\n            row.extend([index2, index1])\n            values.extend([1, 1])", None),
     V("N-inline-sequence", O, "        sequence = sequences[label]\n        sequence.sound_events.append(sound_event)", "        sequences[label].sound_events.append(sound_event)", None),
+    # wave 6: the public name pointed at another implementation (anchored file untouched)
+    V("public-export-reimplemented(G.9)", "src/soundevent/geometry/__init__.py", "    group_sound_events,\n    have_frequency_overlap,", "    have_frequency_overlap,", "G.9",
+      also=(("src/soundevent/geometry/__init__.py", "from soundevent.geometry.html import geometry_to_html\n", "from soundevent.geometry.html import geometry_to_html\nfrom soundevent.geometry.grouping import group_sound_events\n"),
+            ("src/soundevent/geometry/grouping.py", "", "from itertools import groupby\n\nfrom scipy.sparse.csgraph import connected_components\n\nfrom soundevent import data\nfrom soundevent.geometry.operations import _compute_similarity_matrix\n\n\ndef group_sound_events(sound_events, comparison_fn):\n    similarity_matrix = _compute_similarity_matrix(sound_events, comparison_fn)\n    _, labels = connected_components(similarity_matrix)\n    return [data.Sequence(sound_events=[se for _, se in grp]) for _, grp in groupby(zip(labels, sound_events), key=lambda p: p[0])]\n"))),
+    V("N-public-export-through-forwarding-wrapper", "src/soundevent/geometry/__init__.py", "    group_sound_events,\n    have_frequency_overlap,", "    have_frequency_overlap,", None,
+      also=(("src/soundevent/geometry/__init__.py", "from soundevent.geometry.html import geometry_to_html\n", "from soundevent.geometry.html import geometry_to_html\nfrom soundevent.geometry.grouping import group_sound_events\n"),
+            ("src/soundevent/geometry/grouping.py", "", "from soundevent.geometry import operations as _ops\n\n\ndef group_sound_events(sound_events, comparison_fn):\n    \"\"\"Public entry point (implementation in operations).\"\"\"\n    return _ops.group_sound_events(sound_events, comparison_fn)\n"))),
 ]
